@@ -16,3 +16,8 @@ REGISTRY = {}
 REGISTRY["C30"] = l0("C30", "c30_lifo",
     real=["parsec/class/lifo.h (inline 128-bit CAS variant, via instrumented shim)", "parsec/class/parsec_lifo.c (out-of-line copy)", "parsec/class/parsec_object.c"],
     bounds="2-4 sim-threads, <= 22 operations (push/chain/pop/try_pop), 0-4 initial + 1-3 items per thread, items recycled; WGL linearizability + conservation")
+
+# fragments written per property (one file each, so that harnesses can be developed independently)
+import glob, os as _os
+for _f in sorted(glob.glob(_os.path.join(_os.path.dirname(_os.path.abspath(__file__)), "registry.d", "*.py"))):
+    exec(compile(open(_f).read(), _f, "exec"))
